@@ -58,8 +58,38 @@ def run(name, props):
     json.dump(meta, open(d + "/meta.json", "w"), indent=1)
 
 
+def runcopy(name, props):
+    """like run, but on a scratch copy of /repo's sigpy package (PYVC_REPO); /repo itself is not touched"""
+    import tempfile
+    d = "/verif/seeded/%s" % name
+    meta = json.load(open(d + "/meta.json"))
+    props = props or [meta["property"]]
+    tmp = tempfile.mkdtemp(prefix="seedrepo_", dir="/tmp")
+    try:
+        sh("git -C /repo archive HEAD | tar -x -C %s" % tmp)
+        a = sh("git apply --unsafe-paths --directory=%s %s/patch.diff" % (tmp, d), cwd=tmp)
+        if a.returncode:
+            a = sh("patch -p1 -d %s < %s/patch.diff" % (tmp, d))
+        if a.returncode:
+            print("patch does not apply:", a.stderr, a.stdout); return
+        for p in props:
+            env = dict(os.environ, PYVC_REPO=tmp, PYVC_EVIDENCE_DIR=os.path.join(tmp, "evidence"))
+            r = sh("./check %s --tier quick" % p, cwd="/verif", env=env)
+            lines = r.stdout.strip().splitlines()
+            fails = [l.strip()[len("failed obligation: "):] for l in lines if l.strip().startswith("failed obligation")]
+            viol = [l for l in lines if l.startswith("VIOLATION")]
+            eng = [l for l in lines if l.startswith(("ENGINE-ERROR", "UNDECIDED"))]
+            print(name, p, "exit", r.returncode, "violations", len(viol), "first:", fails[:3])
+            for l in eng[:4]:
+                print("   ", l[:220])
+    finally:
+        shutil.rmtree(tmp, ignore_errors=True)
+
+
 if __name__ == "__main__":
     if sys.argv[1] == "confirm":
         confirm(sys.argv[2], sys.argv[3], sys.argv[4], sys.argv[5], sys.argv[6:])
+    elif sys.argv[1] == "runcopy":
+        runcopy(sys.argv[2], sys.argv[3:])
     else:
         run(sys.argv[2], sys.argv[3:])
